@@ -206,11 +206,76 @@ def doPso (l : Line) : Option String := do
       | .ok _ s => finish s x m
   | _, _ => none
 
+/-- `leaf kind=zerodiff|multc|imag|cmod|norm|dist|powf|multf mode=oop|ip|alias n=N m=M x=… y=…
+c=… v=…` (round 4): one `default_ops.py` class as a model leaf under the public call. Buffer 0 = x
+(`n` entries; a field-domain operator has its scalar at index 0), buffer 1 = y (`m` entries; for
+a functional `mode=ip` stands for `out=<a float>`: in the range, rejected with TypeError).
+Answers `ok isout=0|1 new=0|1 val=… x=… y=…` (`new`: the returned object did not exist before)
+or `err:KIND`. -/
+def doLeaf (l : Line) : Option String := do
+  let kind ← l.get? "kind"
+  let mode ← l.get? "mode"
+  let n ← l.nat? "n"
+  let m ← l.nat? "m"
+  let x ← l.fs? "x"
+  let y ← l.fs? "y"
+  let c := (l.f? "c").getD nanF
+  let v := vecOf ((l.fs? "v").getD #[])
+  let jk : Nat → Vec Float := fun _ _ => nanF
+  let leaf : Leaf Float ← match kind with
+    | "zerodiff" => some zeroDiffLeaf
+    | "multc" => some (multScalarLeaf (· == 0.0) jk c)
+    | "imag" => some imagLeaf
+    | "cmod" => some (cmodLeaf Float.sqrt)
+    | "norm" => some (funcLeaf fun x => Float.sqrt (sumN n fun i => x i * x i))
+    | "dist" => some (funcLeaf fun x => Float.sqrt (sumN n fun i => (v i - x i) * (v i - x i)))
+    | "powf" => some (funcLeaf fun x => (floatFns 1 1 1.0 c).pow (x 0))
+    | "multf" => some (funcLeaf fun x => x 0 * c)
+    | _ => none
+  let s0 : St Float := { mem := fun b => if b = 0 then vecOf x else if b = 1 then vecOf y
+                                          else fun _ => nanF, next := 2 }
+  let res ← match mode with
+    | "oop" => some (call jk (.leaf leaf) (.inDomain 0) .none s0)
+    | "ip" => some (call jk (.leaf leaf) (.inDomain 0) (.inRange 1) s0)
+    | "alias" => some (call jk (.leaf leaf) (.inDomain 0) (.inRange 0) s0)
+    | _ => none
+  let dump (s : St Float) (b k : Nat) := showList showBits ((List.range k).map (s.mem b))
+  match res with
+  | .err e _ => some (showErr e)
+  | .ok r s =>
+      let isout := if mode = "ip" then r == 1 else if mode = "alias" then r == 0 else false
+      some s!"ok isout={if isout then 1 else 0} new={if r ≥ 2 then 1 else 0} val={dump s r m} x={dump s 0 n} y={dump s 1 m}"
+
+/-- `lincomb mode=oop|ip|alias0|alias1 n=N a=… b=… x0=… x1=… y=…` (round 4):
+`LinCombOperator(X, a, b)` on the tuple (buffer 0, buffer 1); `out` = buffer 2 (`ip`) or the
+component object itself (`alias0` / `alias1`). Answers `ok ret=B val=… x0=… x1=…`. -/
+def doLinComb (l : Line) : Option String := do
+  let mode ← l.get? "mode"
+  let n ← l.nat? "n"
+  let a ← l.f? "a"
+  let b ← l.f? "b"
+  let x0 ← l.fs? "x0"
+  let x1 ← l.fs? "x1"
+  let y ← l.fs? "y"
+  let s0 : St Float := { mem := fun k => if k = 0 then vecOf x0 else if k = 1 then vecOf x1 else
+                                          if k = 2 then vecOf y else fun _ => nanF, next := 3 }
+  let x : Nat → Nat := fun j => j
+  let dump (s : St Float) (k : Nat) := showList showBits ((List.range n).map (s.mem k))
+  let (r, s) ← match mode with
+    | "oop" => some (linCombO (· == 0.0) (fun _ _ => nanF) a b x s0)
+    | "ip" => some (2, linCombI (· == 0.0) a b x 2 s0)
+    | "alias0" => some (0, linCombI (· == 0.0) a b x 0 s0)
+    | "alias1" => some (1, linCombI (· == 0.0) a b x 1 s0)
+    | _ => none
+  some s!"ok ret={r} val={dump s r} x0={dump s 0} x1={dump s 1}"
+
 def handle (l : Line) : Option String :=
   match l.op with
   | "dispatch" => doDispatch l
   | "tree" => doTree l
   | "pso" => doPso l
+  | "leaf" => doLeaf l
+  | "lincomb" => doLinComb l
   | _ => none
 
 def main : IO Unit := driverLoop handle
